@@ -393,6 +393,25 @@ func (fr *Frame) findLoops() {
 				}
 			}
 		}
+		// a hand-written index loop "for i := ...; i < len(x); i++": #i is the index variable, #len / #coll as in a
+		// range loop (so a range loop rewritten as an index loop keeps its contract); no automatic bounds invariant
+		if li.rangeIdx == nil && li.rng == nil {
+			for _, in := range li.head.Instrs {
+				if x, ok := in.(*ssa.BinOp); ok && x.Op == token.LSS {
+					if ld, ok := x.X.(*ssa.UnOp); ok && ld.Op == token.MUL {
+						if a, ok := ld.X.(*ssa.Alloc); ok && a.Comment != "" && a.Comment != "rangeindex" {
+							li.idxCell = a
+							li.rangeLen = x.Y
+							if c, ok := x.Y.(*ssa.Call); ok {
+								if bi, ok := c.Call.Value.(*ssa.Builtin); ok && bi.Name() == "len" {
+									li.rangeColl = c.Call.Args[0]
+								}
+							}
+						}
+					}
+				}
+			}
+		}
 		fr.loops[li.head] = li
 		fr.loopList = append(fr.loopList, li)
 	}
@@ -679,6 +698,23 @@ func (vc *VC) loopHash(fr *Frame, li *loopInfo, st *State, env *Env) {
 			}
 		}
 	}
+	if li.idxCell != nil {
+		if c := fr.cells[li.idxCell]; c != nil {
+			if t, ok := st.locals[c]; ok {
+				env.hash["i"] = Val{T: tInt, S: t}
+			}
+		}
+		if li.rangeLen != nil {
+			if v, ok := fr.regs[li.rangeLen]; ok {
+				env.hash["len"] = v
+			}
+		}
+		if li.rangeColl != nil {
+			if v, ok := fr.regs[li.rangeColl]; ok {
+				env.hash["coll"] = v
+			}
+		}
+	}
 	if li.rng != nil {
 		if it := fr.iters[li.rng]; it != nil {
 			if t, ok := st.locals[it.it]; ok {
@@ -808,6 +844,14 @@ func (vc *VC) backEdge(fr *Frame, li *loopInfo, st *State, guard string) {
 	if li.spec != nil && len(li.spec.EndHints) > 0 {
 		henv := vc.envFor(fr, st)
 		vc.loopHashBody(fr, li, st, henv)
+		if li.idxCell != nil {
+			// at the back edge of an index loop the variable has already been incremented: #i stays the index of the
+			// element just processed, as in a range loop
+			if v, ok := henv.hash["i"]; ok {
+				henv.hash["i"] = Val{T: tInt, S: "(- " + v.S + " 1)"}
+				henv.hash[fmt.Sprintf("i%d", li.ordinal)] = henv.hash["i"]
+			}
+		}
 		vc.runHints(fr, st, guard, li.spec.EndHints, henv, fmt.Sprintf("loop%d-end", li.ordinal))
 	}
 	env := vc.envFor(fr, st)
